@@ -1,8 +1,18 @@
 /-
   Props.C01Fallback — the portable fallback bodies of I32/I64 CLZ, CTZ, POPCNT in
   `w2c2_base.h` (used when the compiler has no `__builtin_*`), regenerated from source as
-  `CFunc` statement ASTs, equal the WebAssembly operators for all inputs.
-  The Hacker's-Delight CLZ bodies are evaluated path by path (32 / 64 paths).
+  `CFunc` statement ASTs, equal the WebAssembly operators for ALL inputs, in both widths:
+
+    i32_clz_fallback    i64_clz_fallback      (Hacker's-Delight binary search; the body is
+                                               evaluated path by path: 32 / 64 paths, each path
+                                               condition + result closed by `bv_decide`)
+    i32_ctz_fallback    i64_ctz_fallback      (`N - CLZ(~x & (x - 1))`; evaluated in `fallbackDefs`,
+                                               where the callee is the fallback CLZ body; the CLZ
+                                               theorems are used as rewrite rules for the call)
+    i32_popcnt_fallback i64_popcnt_fallback   (SWAR popcount, one `bv_decide` against `BitVec.cpop`)
+
+  Every theorem is for the regenerated body as it is (argument and result types of the C
+  function: U32 → U32, U64 → U64) and has no side condition.
 -/
 import W2c2Verif.Gen.Macros
 import W2c2Verif.Lemmas.Tactics
@@ -11,10 +21,19 @@ import W2c2Verif.Lemmas.SpecInt
 namespace W2c2Verif.Props.C01
 open W2c2Verif
 
+/-! ### POPCNT -/
+
 theorem i32_popcnt_fallback (x : BitVec 32) :
     Gen.f_I32_POPCNT.call noDefs [.u32 x] = .val (.u32 (Spec.ipopcnt x)) := by
   simp only [Gen.f_I32_POPCNT]; csem_step
   simp only [Spec.ipopcnt]; bv_decide
+
+theorem i64_popcnt_fallback (x : BitVec 64) :
+    Gen.f_I64_POPCNT.call noDefs [.u64 x] = .val (.u64 (Spec.ipopcnt x)) := by
+  simp only [Gen.f_I64_POPCNT]; csem_step
+  simp only [Spec.ipopcnt]; bv_decide
+
+/-! ### CLZ -/
 
 set_option maxHeartbeats 4000000 in
 theorem i32_clz_fallback (x : BitVec 32) :
@@ -24,7 +43,44 @@ theorem i32_clz_fallback (x : BitVec 32) :
   all_goals (simp only [Spec.iclz])
   all_goals bv_decide
 
+set_option maxHeartbeats 8000000 in
+/-- `I64 n = 64; U64 y = x >> 32; if (y != 0) { n -= 32; x = y; } … return n - x;` — `n` is a
+    signed 64-bit local, the result is converted to the `U64` return type. 64 paths. -/
+theorem i64_clz_fallback (x : BitVec 64) :
+    Gen.f_I64_CLZ.call noDefs [.u64 x] = .val (.u64 (Spec.iclz x)) := by
+  simp only [Gen.f_I64_CLZ]
+  csem_paths
+  all_goals (simp only [Spec.iclz])
+  all_goals bv_decide
+
+/-! ### CTZ -/
+
 /-- the environment in which the fallback CTZ bodies run: they call the fallback CLZ -/
 def fallbackDefs : Defs := defsOfFuncs Gen.funcsFallback noDefs
+
+/-- evaluate the body of a caller (the outer `CFunc.call` already unfolded) without unfolding
+    `CFunc.call` / `noDefs`, so that calls of already verified callees stay in the form
+    `callee.call noDefs [v]` and are rewritten by the given theorems -/
+local macro "csem_caller" "[" ls:Lean.Parser.Tactic.simpLemma,* "]" : tactic => `(tactic|
+  simp +decide [CExpr.eval, CExpr.typeOf, CStmt.exec_seq, CStmt.exec_skip, CStmt.exec_decl,
+        CStmt.exec_assign, CStmt.exec_opAssign, CStmt.exec_ifThen, CStmt.exec_ret, bindParams, Env.get, Env.set, List.zip,
+        CVal.fromNat, CVal.fromInt, CVal.binop, CVal.unop, CVal.shift, CVal.withAmt, CPrim.amtOk, CTy.common, CTy.promote, CVal.ty,
+        CPrim.cmpS, CPrim.cmpU, CPrim.arithS, CPrim.arithU, CPrim.shiftU, CPrim.shiftS, BinOp.isCmp,
+        Out.map', builtin1, builtin2, defsOfFuncs, fallbackDefs, Gen.funcsFallback,
+        lookupAssoc, -BitVec.shiftLeft_eq', -BitVec.ushiftRight_eq', -BitVec.sshiftRight_eq', $ls,*])
+
+/-- `return 32 - I32_CLZ(~x & (x - 1));` with `I32_CLZ` the fallback body above -/
+theorem i32_ctz_fallback (x : BitVec 32) :
+    Gen.f_I32_CTZ.call fallbackDefs [.u32 x] = .val (.u32 (Spec.ictz x)) := by
+  simp only [Gen.f_I32_CTZ, CFunc.call]
+  csem_caller [i32_clz_fallback]
+  simp only [Spec.iclz, Spec.ictz]; bv_decide
+
+/-- `return 64 - I64_CLZ(~x & (x - 1));` with `I64_CLZ` the fallback body above -/
+theorem i64_ctz_fallback (x : BitVec 64) :
+    Gen.f_I64_CTZ.call fallbackDefs [.u64 x] = .val (.u64 (Spec.ictz x)) := by
+  simp only [Gen.f_I64_CTZ, CFunc.call]
+  csem_caller [i64_clz_fallback]
+  simp only [Spec.iclz, Spec.ictz]; bv_decide
 
 end W2c2Verif.Props.C01
